@@ -58,6 +58,9 @@ def cases(ctx):
         elif op == "concat":
             c["other"] = _mesh_case(rng)
             c["other"]["colors"] = c["colors"]
+            if rng.random() < 0.35:
+                # a vertices-only geometry in front of the others
+                c["lead"] = {"verts": [[rng.randint(3, 5), rng.randint(0, 2), 0] for _ in range(rng.randint(1, 4))]}
         elif op == "infinite":
             bad = rng.sample(range(nv), rng.randint(0, 2))
             c["bad"] = [[v, rng.randrange(3), rng.choice(["nan", "inf", "-inf"])] for v in bad]
@@ -156,7 +159,11 @@ def run_case(c):
     elif op == "concat":
         o = _build(c, "other")
         res["other"] = _snap(o)
-        m = trimesh.util.concatenate([m, o])
+        if "lead" in c:
+            lead = trimesh.Trimesh(vertices=np.array(c["lead"]["verts"], dtype=np.float64), process=False)
+            m = trimesh.util.concatenate([lead, m, o])
+        else:
+            m = trimesh.util.concatenate([m, o])
     elif op == "split":
         parts = m.split(only_watertight=False, repair=False)
         res["parts"] = [_snap(p) for p in parts]
@@ -301,6 +308,8 @@ def model_request(c, o):
             r[k] = c[k]
     if op == "concat":
         r["other"] = _payload(c, "other")
+        if "lead" in c:
+            return None      # the leading faceless mesh changes vertex numbering only: judged by the oracle
     if op == "split":
         if o.get("comps") is None:
             return None
